@@ -559,6 +559,7 @@ func ruleA16(r *Run, p *Prog) {
 	for _, f := range roots {
 		a.visit(f, "root")
 	}
+	ruleNoFixedScratchAppend(r, p, "A16", a.reach)
 	// attribute heap sites to reachable functions; a site is relevant unless every instruction on its line is cold
 	type rng struct {
 		file       string
